@@ -8,9 +8,9 @@ if [ ! -d $W ] || [ "$(git -C $W rev-parse HEAD 2>/dev/null)" != "$HEAD" ]; then
   git -C /repo worktree add -q --detach $W $HEAD || exit 2
 fi
 cd $W || exit 2
-git checkout -q -- . ; git apply "$P" 2>/dev/null || { echo "PATCH DOES NOT APPLY"; exit 3; }
+git checkout -q -- . ; git clean -fdq; git apply "$P" 2>/dev/null || { echo "PATCH DOES NOT APPLY"; exit 3; }
 for p in "$@"; do
   /verif/check $p --repo $W --no-evidence > /tmp/tp_$p.out 2>&1; rc=$?
   echo "== $p exit=$rc"; grep -A3 "^VIOLATION\|^ANALYSIS-ERROR" /tmp/tp_$p.out | grep -v "^--" | head -12
 done
-git checkout -q -- .
+git checkout -q -- .; git clean -fdq
